@@ -1,8 +1,14 @@
 """C01 — AOEF save/load round trip is lossless for every collection type."""
 from __future__ import annotations
 
+import json
+
 from .. import aoef as A
-from .aoef_common import AoefProp
+from .aoef_common import AoefProp, Obs, guarded
+
+CODEC_LABELS = ["snr", "f0", "dur ms", "énergie", "q"]
+CODEC_VALUES = [0.0, 1.0, 0.5, 0.1, -3.25, 1e-3, 12345.678]
+CODEC_TE = [1.0, 1.0, 10.0, 0.5, 2.0, 1.0000001]
 
 
 class C01(AoefProp):
@@ -27,7 +33,90 @@ class C01(AoefProp):
         "collections that list the same object twice in their own top-level list are outside the quantifier (C02 demands unique ids there)",
     ]
 
+    IMPORTS = AoefProp.IMPORTS + ["Aoef.Codecs"]
+
+    # ------------------------------------------------------------------ codec stream (features dict, time expansion)
+    def cases(self, rng, tier):
+        out = super().cases(rng, tier)
+        for _ in range(60 if tier == "quick" else 1200):
+            k = rng.randint(0, 5)
+            dup = rng.random() < 0.4
+            labs = [rng.choice(CODEC_LABELS) for _ in range(k)] if dup else rng.sample(CODEC_LABELS, k)
+            out.append({"kind": "codec", "root": "RecordingSet", "features": [[CODEC_LABELS.index(l), rng.randrange(len(CODEC_VALUES))] for l in labs],
+                        "te": rng.randrange(len(CODEC_TE)), "where": rng.choice(["recording", "clip", "sound_event"])})
+        return out
+
+    def run(self, case):
+        if case.get("kind") != "codec":
+            return super().run(case)
+        from soundevent import data, io
+
+        feats = [data.Feature(term=data.term_from_key(CODEC_LABELS[l]), value=CODEC_VALUES[v]) for l, v in case["features"]]
+        te = CODEC_TE[case["te"]]
+        rec = data.Recording(path="/a/b.wav", duration=10, channels=1, samplerate=8000, time_expansion=te,
+                             features=feats if case["where"] == "recording" else [])
+        if case["where"] == "recording":
+            obj = data.RecordingSet(recordings=[rec])
+            pick = lambda o: o.recordings[0]
+        else:
+            clip = data.Clip(recording=rec, start_time=0, end_time=1, features=feats if case["where"] == "clip" else [])
+            se = data.SoundEvent(recording=rec, geometry=data.TimeStamp(coordinates=1), features=feats if case["where"] == "sound_event" else [])
+            ca = data.ClipAnnotation(clip=clip, sound_events=[data.SoundEventAnnotation(sound_event=se)])
+            obj = data.AnnotationSet(clip_annotations=[ca])
+            pick = (lambda o: o.clip_annotations[0].clip) if case["where"] == "clip" else (lambda o: o.clip_annotations[0].sound_events[0].sound_event)
+        self._n += 1
+        p = self.dir / f"k{self._n}.json"
+        o = Obs()
+        st, _ = guarded(io.save, obj, p)
+        o["save"] = st
+        if st == "ok":
+            st2, back = guarded(io.load, p)
+            o["load"] = st2
+            if st2 == "ok":
+                tgt = pick(back)
+                o["features"] = [[CODEC_LABELS.index(f.term.label) if f.term.label in CODEC_LABELS else -1,
+                                  CODEC_VALUES.index(f.value) if f.value in CODEC_VALUES else -1] for f in tgt.features]
+                rte = (back.recordings[0] if case["where"] == "recording" else back.clip_annotations[0].clip.recording).time_expansion
+                o["te"] = CODEC_TE.index(rte) if rte in CODEC_TE else -1
+                o["terms_ok"] = all(f.term == data.term_from_key(f.term.label) for f in tgt.features)
+        p.unlink(missing_ok=True)
+        o["nodes"] = 0
+        o["cycles"] = []
+        return o
+
+    def _agree_codec(self, c, o):
+        if o.get("save") != "ok" or o.get("load") != "ok":
+            return "false"
+        fl = lambda l: "[" + "; ".join(f"({a}, {b})" for a, b in l) + "]"
+        one = CODEC_TE.index(1.0)
+        return (f"list_eqb (fun a b => Z.eqb (fst a) (fst b) && Z.eqb (snd a) (snd b)) (feat_cycle {fl(c['features'])}) {fl(o['features'])} "
+                f"&& Z.eqb (te_dec {one} (te_enc {one} {CODEC_TE.index(CODEC_TE[c['te']])})) {o['te']}")
+
+    def _oracle_codec(self, c, o):
+        fails = []
+        if o.get("save") != "ok" or o.get("load") != "ok":
+            return [{"kind": "save-failed", "what": f"codec case: save {o.get('save')} load {o.get('load')}", "attrs": {"root": c["where"]}}]
+        labs = [l for l, _ in c["features"]]
+        if len(set(labs)) == len(labs) and o["features"] != c["features"]:  # the quantifier's side condition
+            fails.append({"kind": "field-lost", "what": f"features of a {c['where']} {c['features']} came back as {o['features']}", "attrs": {"root": c["where"], "field": "features"}})
+        if CODEC_TE[c["te"]] != (CODEC_TE[o["te"]] if o["te"] >= 0 else None):
+            fails.append({"kind": "field-lost", "what": f"time_expansion {CODEC_TE[c['te']]} came back as index {o['te']}", "attrs": {"root": c["where"], "field": "time_expansion"}})
+        if not o.get("terms_ok", True):
+            fails.append({"kind": "field-lost", "what": "a simple-label term came back as another term", "attrs": {"root": c["where"], "field": "term"}})
+        return fails
+
+    def nontrivial(self, c, o):
+        return len(c["features"]) >= 2 if c.get("kind") == "codec" else super().nontrivial(c, o)
+
+    def tags(self, c, o):
+        if c.get("kind") == "codec":
+            labs = [l for l, _ in c["features"]]
+            return ["codec:" + c["where"], "codec-labels:" + ("distinct" if len(set(labs)) == len(labs) else "repeated"), f"codec-n:{len(labs)}"]
+        return super().tags(c, o)
+
     def agree(self, case, o):
+        if case.get("kind") == "codec":
+            return self._agree_codec(case, o)
         if self.inv:
             return "false"
         c0 = o["cycles"][0] if o["cycles"] else {}
@@ -37,6 +126,8 @@ class C01(AoefProp):
                 f"(Some {A.node_lit(o.x['loaded'])})")
 
     def oracle(self, case, o):
+        if case.get("kind") == "codec":
+            return self._oracle_codec(case, o)
         fails = []  # an inventory difference breaks the correspondence (agree = false); it is not by itself a failing input
         root = case["root"]
         for n, c in enumerate(o["cycles"], 1):
